@@ -82,20 +82,11 @@ class Link:
         if action == "corrupt":
             b = bytearray(fr)
             b[max(0, len(b) // 2 - 1)] ^= 0x10
-            self.d.proto.data_received(bytes(b))      # CANCEL+NAK goes back; nothing reaches the model
-            self.d.loop.settle()
-            raw = ashref.unstuff(bytes(b[:-1]))
-            good = ashref.decode(raw) if raw else None
-            if good is not None:                      # the flip happened to keep the frame valid
-                self.d._end_step(("frames", [good]))
-            else:
-                self.d._end_step(("noop",))
-            return
-        raw = ashref.unstuff(fr[:-1])
-        frame = ashref.decode(raw)
+            fr = bytes(b)
+        # the model gets the very bytes (valid or corrupted): it deframes them itself
         self.d.proto.data_received(fr)
         self.d.loop.settle()
-        self.d._end_step(("frames", [frame]))
+        self.d._end_step(("bytes", fr))
 
     def host_timeout(self):
         if self.d.loop.next_deadline() is not None:
@@ -157,8 +148,9 @@ def run_schedule(seed, window, nlabels, fault_rate, cancels):
         for e in d.rec.log:
             if e[0] == "done":
                 dones[e[1]] = e[2]
-        pairs = [(ev, st) for ev, st in zip(d.events, d.steps) if ev[0] != "noop"]
-        return {"events": [ev for ev, _ in pairs], "steps": [[c05._j(e) for e in st] for _, st in pairs], "final": d.final(),
+        pairs = list(zip(d.events, d.steps))
+        return {"events": [ev for ev, _ in pairs], "steps": [[c05._j(e) for e in st] for _, st in pairs],
+                "final": d.final() + [len(d.proto._buffer), 1 if d.proto._discarding_until_next_flag else 0],
                 "host_up": [e[1].hex() for e in d.rec.log if e[0] == "up"], "ncp_up": [p.hex() for p in L.ncp_up],
                 "host_subm": [[i, p.hex()] for i, p in L.host_subm], "ncp_subm": [p.hex() for p in L.ncp_subm],
                 "dones": {str(k): v for k, v in dones.items()}, "labels": len(labels),
@@ -242,9 +234,9 @@ def is_subsequence(a, b):
 class Check(PropertyCheck):
     pid = "C01"
     gen_files = ["GenAsh"]
-    model_imports = ["gen.GenAsh", "model.AshCodec", "model.AshRx", "model.AshHost"]
-    run_expr = "run_host_case"
-    case_type = "(list hevent)"
+    model_imports = ["gen.GenAsh", "model.AshCodec", "model.AshRx", "model.AshHost", "model.AshHostBytes"]
+    run_expr = "run_hostbytes_case"
+    case_type = "(list bevent)"
     case_preamble = "From Coq Require Import PrimFloat."
     shard = 60
     rule = ("random schedules over labels {host submit, NCP submit, head of either FIFO line: deliver / drop / detectable corruption / "
@@ -271,15 +263,20 @@ class Check(PropertyCheck):
         return {k: v for k, v in case.items() if not k.startswith("_")}
 
     def model_input(self, case):
-        return c05.Check.model_input(self, case)
+        out = []
+        for e in case["_events"]:
+            if e[0] == "bytes":
+                out.append("BBytes [" + ";".join(str(b) for b in e[1]) + "]")
+            else:
+                one = dict(case, _events=[e])
+                inner = c05.Check.model_input(self, one)
+                out.append("BEv (" + inner[1:-1] + ")")
+        return "[" + "; ".join(out) + "]"
 
     def obs_to_z(self, case, obs):
         if "crash" in obs:
             return [-99]
-        steps = []
-        for st in obs["steps"]:
-            steps.append([e for e in st if not (e[0] == "w" and e[1] == "cnak")])
-        return c05.enc_steps(steps) + obs["final"]
+        return c05.enc_steps(obs["steps"]) + obs["final"]
 
     def monitor(self, case, obs):
         if "crash" in obs:
